@@ -40,6 +40,9 @@ def dispatch(prop, tier):
     if prop == "C09":
         from . import tun_check
         return tun_check.check(prop, tier)
+    if prop == "C12":
+        from . import smdef_check
+        return smdef_check.check(prop, tier)
     raise MachineryError("no check for %s" % prop)
 
 
@@ -75,6 +78,9 @@ def main(argv):
             if mod == "Tunable":
                 from . import tun_check
                 return tun_check.replay(argv[1])
+            if mod == "SMDef":
+                from . import smdef_check
+                return smdef_check.replay(argv[1])
             raise MachineryError("cannot replay module %s" % mod)
         prop = argv[0]
         tier = argv[1] if len(argv) > 1 else os.environ.get("VERIF_TIER", "quick")
